@@ -21,7 +21,7 @@ def factoryFor (st : State) (m : LibName) : Option Factory :=
   match libLookup st.factories m with
   | some f => some f
   | none =>
-    match st.files.lookup (libPath m) with
+    match st.files.lookup (fileKey st.dir (libPath m)) with
     | some (.text t) =>
       match factoryOfText m t with
       | .ok f => some f
@@ -40,7 +40,7 @@ structure Step (st st' : State) (roots : List LibName) : Prop where
   base : Inv (fun _ _ => True) st st'
   newFac : ∀ n f, libLookup st'.factories n = some f → libLookup st.factories n = none →
     (∃ r ∈ roots, Requested st r n) ∧
-      ∃ t, st.files.lookup (libPath n) = some (.text t) ∧ factoryOfText n t = .ok f
+      ∃ t, st.files.lookup (fileKey st.dir (libPath n)) = some (.text t) ∧ factoryOfText n t = .ok f
   newInst : ∀ n d, libLookup st'.instances n = some d → libLookup st.instances n = none →
     (∃ r ∈ roots, Requested st r n) ∧
       ∃ k sa sb f, factoryFor st n = some f ∧ newLibrary k sa f = (.ok d, sb)
@@ -48,7 +48,7 @@ structure Step (st st' : State) (roots : List LibName) : Prop where
 theorem Step.factoryFor_eq {st st' : State} {roots} (h : Step st st' roots) (m : LibName) :
     factoryFor st' m = factoryFor st m := by
   unfold factoryFor
-  rw [h.base.files]
+  rw [h.base.files, h.base.dir]
   cases h1 : libLookup st.factories m with
   | some f => rw [h.base.factories m f h1]
   | none =>
@@ -92,7 +92,7 @@ theorem Step.trans {a b c : State} {roots : List LibName} (h1 : Step a b roots) 
       exact h1.newFac n f hb ha
     | none =>
       obtain ⟨⟨r, hr, hq⟩, t, ht, hf⟩ := h2.newFac n f hc hb
-      exact ⟨⟨r, hr, hq.congr hff⟩, t, by rw [← h1.base.files]; exact ht, hf⟩
+      exact ⟨⟨r, hr, hq.congr hff⟩, t, by rw [← h1.base.files, ← h1.base.dir]; exact ht, hf⟩
   · intro n d hc ha
     cases hb : libLookup b.instances n with
     | some d' =>
@@ -110,19 +110,19 @@ theorem Step.of_inv_same {st st' : State} (roots : List LibName) (h : Inv (fun _
    fun n d h1 h2 => (by rw [hi, h2] at h1; cases h1)⟩
 
 theorem factoryFor_congr {a a' : State} (fa : a'.factories = a.factories) (fl : a'.files = a.files)
-    (m : LibName) : factoryFor a' m = factoryFor a m := by
-  unfold factoryFor; rw [fa, fl]
+    (dr : a'.dir = a.dir) (m : LibName) : factoryFor a' m = factoryFor a m := by
+  unfold factoryFor; rw [fa, fl, dr]
 
 theorem Step.transport {a b a' b' : State} {roots : List LibName} (h : Step a b roots)
     (hi : Inv (fun _ _ => True) a' b') (fa : a'.factories = a.factories)
     (ia : a'.instances = a.instances) (fla : a'.files = a.files) (fb : b'.factories = b.factories)
-    (ib : b'.instances = b.instances) : Step a' b' roots := by
-  have hff := factoryFor_congr fa fla
+    (ib : b'.instances = b.instances) (dra : a'.dir = a.dir := by rfl) : Step a' b' roots := by
+  have hff := factoryFor_congr fa fla dra
   refine ⟨hi, ?_, ?_⟩
   · intro n f h1 h2
     rw [fb] at h1; rw [fa] at h2
     obtain ⟨⟨r, hr, hq⟩, t, ht, hf⟩ := h.newFac n f h1 h2
-    exact ⟨⟨r, hr, Requested.congr (st := a') (st' := a) (fun m => (hff m).symm) hq⟩, t, by rw [fla]; exact ht, hf⟩
+    exact ⟨⟨r, hr, Requested.congr (st := a') (st' := a) (fun m => (hff m).symm) hq⟩, t, by rw [fla, dra]; exact ht, hf⟩
   · intro n d h1 h2
     rw [ib] at h1; rw [ia] at h2
     obtain ⟨⟨r, hr, hq⟩, k, sa, sb, f, hf, hn⟩ := h.newInst n d h1 h2
@@ -433,7 +433,7 @@ theorem not_definesLibrary_empty (n : LibName) : ¬ ∃ decls, DefinesLibrary ""
 /-- a file that cannot give a factory: the error, and the state untouched -/
 theorem getLibrary_file_error {fuel : Nat} {st : State} {n : LibName} {loc : Loc} {t : String} {e : SErr}
     (hi : libLookup st.instances n = none) (hf : libLookup st.factories n = none)
-    (hfile : st.files.lookup (libPath n) = some (.text t)) (he : factoryOfText n t = .error e) :
+    (hfile : st.files.lookup (fileKey st.dir (libPath n)) = some (.text t)) (he : factoryOfText n t = .error e) :
     Interp.getLibrary (fuel + 1) st n loc = (.error e, st) := by
   rw [getLibrary_succ_eq, hi]
   simp [findFactory, hf, hfile, he]
